@@ -6,6 +6,8 @@
 #include <pthread.h>
 #include <signal.h>
 #include <sys/mman.h>
+#include <sys/time.h>
+#include <signal.h>
 #include <sys/stat.h>
 #include <unistd.h>
 
@@ -120,11 +122,73 @@ void vf_sample(const char *fmt, ...) {
     fprintf(VF.log, "}\n");
 }
 static char slot_private[4096];
+/* ---- CPU-time watchdog: a case that does not finish.
+ * Decided on CPU time consumed by this process, never on wall-clock time (a loaded machine must not turn a slow case
+ * into a verdict).  A profiling timer ticks every wd_tick_s CPU-seconds; vf_case() bumps a sequence number; when the
+ * number has not moved for wd_ticks consecutive ticks the current case has burnt wd_tick_s*wd_ticks CPU-seconds —
+ * budgets are set two orders of magnitude above the longest case seen on the unchanged tree (the largest number of
+ * stuck ticks observed is written to the evidence as watchdog.max_stuck_ticks).  The record is written with write(2)
+ * from the handler and the worker exits with status 3, which the driver reads as "the monitor reported and stopped". */
+static volatile uint64_t wd_seq;
+static uint64_t wd_last;
+static int wd_stuck, wd_stuck_max, wd_ticks, wd_tick_s;
+static const char *const volatile *wd_fnp;
+void vf_watchdog_fn(const char *const volatile *fnp) { wd_fnp = fnp; }
+static void wd_on_tick(int sig) {
+    (void)sig;
+    if (wd_seq != wd_last) {
+        wd_last = wd_seq;
+        wd_stuck = 0;
+        return;
+    }
+    if (++wd_stuck > wd_stuck_max) wd_stuck_max = wd_stuck;
+    if (wd_stuck < wd_ticks) return;
+    char fn[64] = "?", buf[900], slot[400];
+    const char *f = wd_fnp ? *wd_fnp : NULL;
+    if (f && *f) snprintf(fn, sizeof fn, "%s", f);
+    else {
+        size_t i = 0;
+        for (; VF.slot[i] && VF.slot[i] != ' ' && i < sizeof fn - 1; i++) fn[i] = VF.slot[i];
+        fn[i] = 0;
+    }
+    size_t j = 0;
+    for (size_t i = 0; VF.slot[i] && j < sizeof slot - 2; i++) /* the slot holds printable ASCII; drop what JSON would need escaped */
+        if (VF.slot[i] != '"' && VF.slot[i] != '\\' && (unsigned char)VF.slot[i] >= 32) slot[j++] = VF.slot[i];
+    slot[j] = 0;
+    int n = snprintf(buf, sizeof buf,
+                     "{\"t\":\"viol\",\"property\":\"%s\",\"kind\":\"hang\",\"fn\":\"%s\",\"key\":\"%016" PRIx64
+                     "\",\"sigs\":\"\",\"replay\":\"%s\",\"detail\":\"the case did not finish within %d CPU-seconds of this worker (budget: about 100x the longest case on the unchanged tree): [%s]\"}\n",
+                     VF.prop, fn, vf_mix((uint64_t)fn[0] * 131 + (uint64_t)fn[1] * 31 + (uint64_t)strlen(fn)), slot, wd_tick_s * wd_ticks, slot);
+    if (VF.log) {
+        fflush(VF.log);
+        if (write(fileno(VF.log), buf, (size_t)n) < 0) _exit(4);
+    }
+    _exit(3);
+}
+void vf_watchdog(int tick_s, int ticks) {
+    struct itimerval it = {{tick_s, 0}, {tick_s, 0}};
+    wd_tick_s = tick_s;
+    wd_ticks = ticks;
+    wd_stuck = 0;
+    if (tick_s <= 0) {
+        memset(&it, 0, sizeof it);
+        setitimer(ITIMER_PROF, &it, NULL);
+        return;
+    }
+    struct sigaction sa;
+    memset(&sa, 0, sizeof sa);
+    sa.sa_handler = wd_on_tick;
+    sa.sa_flags = SA_RESTART;
+    sigaction(SIGPROF, &sa, NULL);
+    setitimer(ITIMER_PROF, &it, NULL);
+}
+
 void vf_case(const char *fmt, ...) {
     va_list ap;
     va_start(ap, fmt);
     vsnprintf(VF.slot, 4000, fmt, ap);
     va_end(ap);
+    wd_seq++;
 }
 const char *vf_case_get(void) { return VF.slot; }
 
@@ -1133,6 +1197,7 @@ static void dump_and_close(void) {
             fprintf(VF.log, ",\"v\":%" PRId64 "}\n", ctr[i].v);
         }
     }
+    fprintf(VF.log, "{\"t\":\"max\",\"k\":\"watchdog.max_stuck_ticks_of_%ds\",\"v\":%d}\n", wd_tick_s, wd_stuck_max);
     fprintf(VF.log, "{\"t\":\"done\",\"distinct\":%zu,\"saturated\":%d,\"violations\":%ld,\"assert_hits\":%ld}\n",
             dn, dsat, VF.nviol, vf_assert_hits);
     fflush(VF.log);
@@ -1207,6 +1272,9 @@ int vf_main(int argc, char **argv, const char *prop, void (*run)(void),
         VF.log = stdout;
     setvbuf(VF.log, NULL, _IOFBF, 1 << 16);
     vf_case("startup");
+    /* default budget per case: 40 x 10 = 400 CPU-seconds (thorough 120 x 10); monitors with their own needs call vf_watchdog again */
+    /* VF_WD_TICKS: calibration runs against deliberately broken trees (mutants/) shorten the budget; checks never set it */
+    if (!getenv("VF_NO_WATCHDOG")) vf_watchdog(10, getenv("VF_WD_TICKS") ? atoi(getenv("VF_WD_TICKS")) : VF.thorough ? 120 : 40);
     if (rspec) {
         if (!replay) vf_fatal("no replay support");
         vf_case("%s", rspec);
